@@ -1,6 +1,6 @@
 """C02 - safe evaluator computes the same value Python would on the allowed subset.
 
-Case: {"expr": text, "pathway": "auto"|"math"|"logic"|"transform"}
+Case: {"expr": text, "pathway": "auto"|"math"|"logic"|"transform", "pre": [text, ...]}   (pre: evaluated first; must not influence the result)
 Expressions are generated from the allowed grammar only (literals, arithmetic, comparisons incl. chains, and/or/not,
 conditional expressions, lists/tuples, calls of allow-listed functions with positional and keyword arguments), with
 small operands so evaluation is cheap.  Oracle: differential against Python's own eval over the same allow-listed names.
@@ -160,7 +160,9 @@ def _call(draw, depth):
 
 def strategy(tier):
     expr = st.integers(1, 4).flatmap(lambda d: _any(d))
-    return st.fixed_dictionaries({"expr": expr, "pathway": st.sampled_from(["auto", "auto", "math", "math", "logic", "logic", "transform"])})
+    # `pre`: other expressions evaluated first (fresh engines, same process) - a result must not depend on what was evaluated before
+    pre = st.one_of(st.just([]), st.just([]), st.lists(st.one_of(_num(1), _call(1), _any(2)), min_size=1, max_size=2))
+    return st.fixed_dictionaries({"expr": expr, "pathway": st.sampled_from(["auto", "auto", "math", "math", "logic", "logic", "transform"]), "pre": pre})
 
 
 _CORNERS = [
@@ -175,10 +177,17 @@ _CORNERS = [
 ]
 
 
+_ORDER_PAIRS = [("'ab' * 2", "'ab' * 2.0"), ("2 ** 53 + 1", "2.0 ** 53 + 1"), ("0 * (-1)", "atan2(0.0 * (-1), (-1))"), ("1 + True", "1 + 1.0"), ("True == 1", "1.0 == 1"),
+                ("7 // 2", "7.0 // 2"), ("max(1, 2)", "max(1.0, 2)"), ("2 * 3", "2.0 * 3"), ("(1, 2) + (3,)", "[1, 2] + [3]"), ("round(2.5)", "round(2.5, 0)")]
+
+
 def enumerate_cases(tier):
     for ex in _CORNERS:
         for pw in ("auto", "math", "logic"):
-            yield {"expr": ex, "pathway": pw}
+            yield {"expr": ex, "pathway": pw, "pre": []}
+    for a, b in _ORDER_PAIRS:
+        for first, second in ((a, b), (b, a)):
+            yield {"expr": second, "pathway": "math", "pre": [first]}
 
 
 def _eq(a, b):
@@ -205,6 +214,14 @@ def judge(case):
     out = Outcome()
     expr = case["expr"]
     pw = {"auto": None, "math": MetabolicPathway.GLYCOLYSIS, "logic": MetabolicPathway.KREBS_CYCLE, "transform": MetabolicPathway.BETA_OXIDATION}[case["pathway"]]
+    for other in case.get("pre", []):
+        try:
+            Mitochondria(silent=True, max_ros=1000.0).metabolize(other, pw if pw != MetabolicPathway.BETA_OXIDATION else None)
+        except Exception as e:
+            out.fail("raise:%s" % type(e).__name__, "metabolize raised %s: %s" % (type(e).__name__, e), {"expr": other})
+            return out
+    if case.get("pre"):
+        out.label("pre-evaluated")
     m = Mitochondria(silent=True, max_ros=1000.0)
     try:
         r = m.metabolize(expr, pw)
